@@ -42,7 +42,7 @@ class R:
         self.gdecl = ("<" + ", ".join(([lt] if lt else []) + self.gnames) + ">") if gs else ""
         self.gwhere = ""
         if gs:
-            preds = [f"{g['name']}: svmon::Param + " + (g["extra_bound"] + " + " if g.get("extra_bound") else "") + "'static" for g in gs]
+            preds = [f"{g['name']}: {g.get('bound', 'svmon::Param')} + " + (g["extra_bound"] + " + " if g.get("extra_bound") else "") + "'static" for g in gs]
             self.gwhere = " where " + ", ".join(preds)
         # concrete contract type, usable in type and expression position
         self.conc = (["'static"] if (lt and gs) else []) + [g["concrete"] for g in gs]
@@ -384,7 +384,30 @@ class R:
         lines += self.contract_src()
         if with_glue:
             lines += self.glue()
-        return "\n".join(lines) + "\n"
+        text = "\n".join(lines) + "\n"
+        if self.p.get("shadow"):
+            text = self._shadowed(text)
+        return text
+
+    SHADOW_MARK = "SHADOWTY_"
+    PRELUDE_PATHS = {n: "cw_std" for n in ["Addr", "Binary", "Coin", "CustomMsg", "CustomQuery", "Empty", "Reply", "Response", "StdError",
+                                           "StdResult", "SubMsgResult", "Uint128"]}
+    PRELUDE_PATHS.update({n: "ctx" for n in ["ExecCtx", "InstantiateCtx", "MigrateCtx", "QueryCtx", "ReplyCtx", "SudoCtx"]})
+
+    def _shadowed(self, text):
+        """The program imports user types under names of the framework's vocabulary (`use svmon::shadow::Empty;`).
+        Every bare occurrence the renderer wrote means the framework's item and is spelled out as a full path;
+        the user's type was rendered with a marker that is dropped last."""
+        import re
+        names = self.p["shadow"]
+        head, body = text.split("use svmon::prelude::*;\n", 1)
+        for n in names:
+            if n in self.PRELUDE_PATHS:
+                full = f"{self.sv}::{self.PRELUDE_PATHS[n]}::{n}"
+                body = re.sub(r"(?<![:\w\"])" + n + r"\b", full, body)
+                head = re.sub(r"(?<=[{ ])" + n + r", |, " + n + r"(?=})", "", head)
+        head += "use svmon::prelude::*;\nuse svmon::shadow::{" + ", ".join(names) + "};\n"
+        return (head + body).replace(self.SHADOW_MARK, "")
 
     # ---------------------------------------------------------- glue
     def msg_generics(self, part, kind):
